@@ -414,7 +414,7 @@ func genC03(tier string) []Scenario {
 		if d.slot >= 0 && d.inner.slot >= 0 {
 			continue
 		}
-		if d.uses(shSelfRec) && d.uses(shDefaultEdge) && !th {
+		if d.uses(shSelfRec) && !th && (d.uses(shDefaultEdge) || (d.slot >= 0 && d.inner.base >= 2 && d.inner.base < numCoreShapes)) {
 			continue // the widest menus inside the deepest recursion: thorough tier only
 		}
 		d := d
@@ -422,13 +422,10 @@ func genC03(tier string) []Scenario {
 			inj := injectMenu(collectActions(root), 2, false)
 			return func(h *H, c call) []answer {
 				m := inj(h, c)
-				if h.runNo == 0 {
-					return m
-				}
-				// later runs: routing only
+				// later runs: routing only (and a plain failure is all the first run needs here)
 				var ok []answer
 				for _, a := range m {
-					if a.err == nil {
+					if a.err == nil || (h.runNo == 0 && a.err != errCancelThenFail) {
 						ok = append(ok, a)
 					}
 				}
